@@ -325,9 +325,22 @@ def local_defs(fnode):
             stores[n.id] = stores.get(n.id, 0) + 1
     params = {a.arg for a in fnode.args.posonlyargs + fnode.args.args + fnode.args.kwonlyargs}
     out = {}
+    last_store = {}
+    in_loop = set()
+    for n in ast.walk(fnode):
+        if isinstance(n, ast.Name) and isinstance(n.ctx, (ast.Store, ast.Del)):
+            last_store[n.id] = max(last_store.get(n.id, 0), getattr(n, 'lineno', 0))
+    for lp in ast.walk(fnode):
+        if isinstance(lp, (ast.For, ast.While)):
+            for n in ast.walk(lp):
+                if isinstance(n, ast.Name) and isinstance(n.ctx, (ast.Store, ast.Del)):
+                    in_loop.add(n.id)
 
-    def ok_value(v):
-        return all(stores.get(x.id, 0) == 0 or (stores.get(x.id, 0) == 1 and x.id in out) for x in ast.walk(v) if isinstance(x, ast.Name) and isinstance(x.ctx, ast.Load))
+    def ok_value(v, at=0):
+        # a name read by the definition is stable afterwards: never stored, a single-store local already accepted, or every
+        # store of it lies before the definition (and outside loops)
+        return all(stores.get(x.id, 0) == 0 or (stores.get(x.id, 0) == 1 and x.id in out) or (x.id not in in_loop and last_store.get(x.id, 0) < at)
+                   for x in ast.walk(v) if isinstance(x, ast.Name) and isinstance(x.ctx, ast.Load))
     for n in ast.walk(fnode):
         if not (isinstance(n, ast.Assign) and len(n.targets) == 1):
             continue
@@ -338,7 +351,7 @@ def local_defs(fnode):
         elif isinstance(t, ast.Tuple) and isinstance(v, ast.Tuple) and len(t.elts) == len(v.elts) and all(isinstance(x, ast.Name) for x in t.elts):
             pairs = list(zip(t.elts, v.elts))
         for x, y in pairs:
-            if stores.get(x.id) == 1 and x.id not in params and ok_value(y):
+            if stores.get(x.id) == 1 and x.id not in params and ok_value(y, getattr(n, 'lineno', 0)):
                 out[x.id] = y
     return out
 
